@@ -67,6 +67,75 @@ def make_jobs(seed, tier):
     return jobs
 
 
+SWEEP_LENS = list(range(1, 141)) + [191, 192, 193, 255, 256, 257, 447, 448, 449, 510, 511]
+
+
+def make_sweep_jobs(seed, tier):
+    """one base phrase of every length (1..140 and the block boundaries up to
+    511), each perturbed at its first, last and a random significant byte:
+    length-specific slips (a block boundary, a dropped update) need a base of
+    exactly that length"""
+    jobs = []
+    for m in gen.METHODS:
+        rng = rt.rng_for(seed, PID, "sweep", m)
+        cands = base_settings(rng, m, 5)
+        lens = SWEEP_LENS if tier == "thorough" else SWEEP_LENS
+        for part in pool.chunks(lens, 40):
+            jobs.append(("sweep", m, cands, part, rng.getrandbits(32)))
+    return jobs
+
+
+def do_sweep(job):
+    _, m, cands, lens, nz = job
+    acc = common.Acc()
+    w = rt.vw(FL)
+    rng = rt.rng_for(nz, "sweep")
+    setup = [rt.obj_line(0, align=6)]
+    s = None
+    for cs, form in cands:
+        res, end = w.run(setup + [rt.crypt_line("crypt_rn", 0, b"probe phrase", cs)], 200)
+        if end is None and rt.hash_of(res[-1]) is not None:
+            s = cs
+            break
+    if s is None:
+        return acc
+    lo, hi = (0x21, 0x7E) if m in SEVEN_BIT else (1, 255)
+    lines, meta = [], []
+    for L in lens:
+        base = bytes(rng.randint(lo, hi) for _ in range(L))
+        win = min(window(m, s, L), L)
+        pos = sorted(set([0, win - 1, rng.randrange(win)]))
+        lines.append(rt.crypt_line("crypt_rn", 0, base, s))
+        meta.append(("base", L, None))
+        for i in pos:
+            lab, p2 = perturb(rng, m, base, i)[rng.randrange(2)]
+            lines.append(rt.crypt_line("crypt_rn", 0, p2, s))
+            meta.append((lab, L, i))
+    rows = rt.run_resilient(w, setup, lines, timeout=200)
+    H = None
+    bl = None
+    for (kind, L, i), r, ln in zip(meta, rows, lines):
+        if not isinstance(r, dict):
+            acc.inconc("sweep death/timeout")
+            continue
+        h = rt.hash_of(r)
+        if kind == "base":
+            H, bl = h, ln
+            continue
+        acc.count("evaluations")
+        if H is None or h is None:
+            continue
+        acc.count("phrase_perturbations")
+        acc.count("pp/" + m)
+        acc.count("length_sweep")
+        acc.cls((m, "len-sweep", L))
+        if h == H:
+            acc.violation("%s/phrase-insensitive/%s" % (PID, m),
+                          "setting=%r phrase length %d: %s at byte %d gives the same hash %r" % (s, L, kind, i, H),
+                          rt.replay_obj(FL, setup + [bl, ln]))
+    return acc
+
+
 def perturb(rng, m, base, i):
     """phrase perturbations at position i: (label, phrase)"""
     out = []
@@ -120,13 +189,26 @@ def do_job(job):
             meta.append(("phrase-extend", len(base), base + bytes([c]), s))
     # setting perturbations: every character of the canonical setting part
     # (the tag itself is not salt or cost: e.g. $2a$/$2b$/$2y$ are the same
-    # algorithm for 7-bit phrases, so tag characters are left alone)
+    # algorithm for 7-bit phrases, so tag characters are left alone).  Each
+    # character is replaced by the six neighbours that differ in one bit of
+    # its 6-bit alphabet value (parity/masking slips show on adjacent values)
+    # and by random other characters.
     for j in range(len(gen.TAG[m]), len(Hset)):
-        for _ in range(2 if len(base) == 511 else 1):
-            c = rng.choice(alpha if Hset[j] in alpha else gen.A64)
+        al = alpha if Hset[j] in alpha else gen.A64
+        cands = []
+        if len(base) == 511:
+            k = al.find(bytes([Hset[j]]))
+            if k >= 0 and len(al) == 64:
+                cands += [al[k ^ (1 << b)] for b in range(6)]
+            if 0x30 <= Hset[j] <= 0x39:
+                cands += [0x30 + ((Hset[j] - 0x30) ^ 1)]
+        cands += [rng.choice(al) for _ in range(2 if len(base) == 511 else 1)]
+        for c in cands:
             if c == Hset[j]:
                 continue
             s2 = Hset[:j] + bytes([c]) + Hset[j + 1:]
+            if m == "bsdicrypt" and s2[1:5] == b"....":
+                continue    # count 0 is outside the documented range 1..2^24-1 (the library treats it as 1)
             if gen.cost_units(s2, len(base)) > BUDGET * 4:
                 acc.count("skipped_expensive")
                 continue
@@ -163,6 +245,14 @@ def do_job(job):
             if set2 == Hset:
                 acc.count("setting_char_ignored")      # canonical form unchanged: documented-insignificant
                 continue
+            if m in ("yescrypt", "gost_yescrypt"):
+                # the parameter field has alternate spellings (unused bits of the 'have' mask, multi-character
+                # numbers); judge only when the decoded (flavour, N, r, p, t) or the salt really changed
+                from .. import decode
+                d1, d2 = decode.decode(m, Hset[:-1]), decode.decode(m, set2[:-1])
+                if d1 is None or d2 is None or (d1["cost"], d1["salt"]) == (d2["cost"], d2["salt"]):
+                    acc.count("setting_alternate_spelling")
+                    continue
             acc.count("setting_perturbations")
             acc.count("sp/" + m)
             acc.cls((m, kind, min(pos, 40)))
@@ -182,6 +272,8 @@ def run(tier):
     jobs = make_jobs(run_.seed, tier)
     for acc in pool.pmap(do_job, jobs):
         run_.merge(acc)
+    for acc in pool.pmap(do_sweep, make_sweep_jobs(run_.seed, tier)):
+        run_.merge(acc)
     a = run_.acc
     cov = {
         "rule": "base = (method, accepted setting, random phrase of 511 and of a shorter length); perturbations: bit "
@@ -191,6 +283,7 @@ def run(tier):
                 "setting part of the result changed; distinct = (method, kind, position bucket)",
         "phrase_perturbations": int(a.n.get("phrase_perturbations", 0)),
         "setting_perturbations": int(a.n.get("setting_perturbations", 0)),
+        "length_sweep_perturbations": int(a.n.get("length_sweep", 0)),
         "setting_chars_canonically_ignored": int(a.n.get("setting_char_ignored", 0)),
         "positions_exhaustive": tier == "thorough",
         "exhaustive": False,
